@@ -96,15 +96,19 @@ def describe(tier):
 
 class Cfg(object):
     def __init__(self, name, element, make, model, pool, twin=None, model_fresh=None,
-                 kind="fc", peek=None, bufsize=1, watch=False, sibling=None):
+                 kind="fc", peek=None, bufsize=1, watch=False, sibling=None, refused=()):
         self.sibling = sibling
+        # values the element cannot take (fill must raise): a fill that raises is no fill, the aggregate
+        # and the current context stay as they were. Events "x0", "x1", ...
+        self.refused = list(refused)
         self.name, self.element = name, element
         self.make, self.model = make, model
         self.twin = twin or make
         self.model_fresh = model_fresh or model
         self.pool, self.kind, self.peek = pool, kind, peek
         self.watch = watch
-        self.events = list(range(len(pool))) + (["c"] if kind == "fc" else []) + ["r"]
+        self.events = list(range(len(pool))) + (["c"] if kind == "fc" else []) + ["r"] + \
+            ["x%d" % i for i in range(len(self.refused))]
 
 
 def _configs():
@@ -124,21 +128,22 @@ def _configs():
         lambda: M.CountModel("n", 3), NUM, twin=lambda: Count(name="n"),
         model_fresh=lambda: M.CountModel("n", 0), peek=lambda el: el.count,
         sibling=lambda: Count(name="sibling", count=7))
-    add("Sum()", "Sum", lambda: Sum(), lambda: M.SumModel(), NUM, peek=total)
+    add("Sum()", "Sum", lambda: Sum(), lambda: M.SumModel(), NUM, peek=total, refused=["s"])
     add("Sum(total=5)", "Sum", lambda: Sum(total=5), lambda: M.SumModel(5), NUM,
         twin=lambda: Sum(), model_fresh=lambda: M.SumModel(), peek=total)
-    add("DSum()", "DSum", lambda: DSum(), lambda: M.DSumModel(), NUM, peek=total)
+    add("DSum()", "DSum", lambda: DSum(), lambda: M.DSumModel(), NUM, peek=total, refused=[("s", CTX1)])
     add("DSum(total=0.1)", "DSum", lambda: DSum(total=0.1), lambda: M.DSumModel(0.1), NUM,
         twin=lambda: DSum(), model_fresh=lambda: M.DSumModel(), peek=total)
-    add("Mean()", "Mean", lambda: Mean(), lambda: M.MeanModel(), NUM)
+    add("Mean()", "Mean", lambda: Mean(), lambda: M.MeanModel(), NUM, refused=[("s", CTX2)])
     add("Mean(pass_on_empty=True)", "Mean", lambda: Mean(pass_on_empty=True),
         lambda: M.MeanModel(pass_on_empty=True), NUM)
     add("Mean(sum_seq=DSum())", "Mean", lambda: Mean(sum_seq=DSum()),
         lambda: M.MeanModel(exact_sum=True), NUM)
     add("Mean(sum_seq=Sum())", "Mean", lambda: Mean(sum_seq=Sum()), lambda: M.MeanModel(), NUM)
-    add("VarianceMeanCount()", "VarianceMeanCount", lambda: VMC(), lambda: M.VarianceModel(), BENIGN)
+    add("VarianceMeanCount()", "VarianceMeanCount", lambda: VMC(), lambda: M.VarianceModel(), BENIGN,
+        refused=[(1e200, CTX1)])
     add("VarianceMeanCount(corrected=False)", "VarianceMeanCount", lambda: VMC(corrected=False),
-        lambda: M.VarianceModel(corrected=False), BENIGN)
+        lambda: M.VarianceModel(corrected=False), BENIGN, refused=["s"])
     add("VarianceMeanCount(pass_on_empty=True)", "VarianceMeanCount", lambda: VMC(pass_on_empty=True),
         lambda: M.VarianceModel(pass_on_empty=True), BENIGN)
     add("Vectorize(Sum(), dim=2)", "Vectorize", lambda: Vectorize(Sum(), dim=2),
@@ -161,7 +166,7 @@ def _configs():
         GROUPK, peek=lambda el: list(el.groups.values()))
     zeros = lambda: [0, 0, 0]
     add("Histogram(edges)", "Histogram", lambda: Histogram(list(EDGES)),
-        lambda: M.HistogramModel(EDGES, zeros()), HIST)
+        lambda: M.HistogramModel(EDGES, zeros()), HIST, refused=[("s", CTX2)])
     add("Histogram(edges, bins=[1,0,2])", "Histogram", lambda: Histogram(list(EDGES), bins=[1, 0, 2]),
         lambda: M.HistogramModel(EDGES, [1, 0, 2]), HIST)
     add("Histogram(edges, make_bins=zeros)", "Histogram",
@@ -396,6 +401,21 @@ def step(cfg, S, e):
         peeks("after reset")
         return viols, ("r", "ok"), False, False
 
+    if isinstance(e, str) and e.startswith("x"):
+        tmpl = cfg.refused[int(e[1:])]
+        r = _call(cfg, lambda: S.el.fill(copy.deepcopy(tmpl)))
+        if r[0] != "exc":
+            S.alive = False
+            bad("refused-value" + sfx, "fill accepted it", "returned", "an exception",
+                "value %r cannot be aggregated by this element" % (tmpl,))
+        if S.twin is not None:
+            rt = _call(cfg, lambda: S.twin.fill(copy.deepcopy(tmpl)))
+            if rt[0] != r[0]:
+                S.alive = False
+                bad("reset-equals-fresh", "fill of a refused value", r, rt, "differs from a fresh element")
+        # nothing else changes: the model is not told about this value
+        return viols, ("x", r[0]), False, False
+
     tmpl = cfg.pool[e]
     if cfg.kind == "fr":
         out = _call(cfg, lambda: _block(S.el, tmpl))
@@ -473,6 +493,8 @@ def _readable(cfg, hist):
             out.append("compute")
         elif e == "r":
             out.append("reset")
+        elif isinstance(e, str) and e.startswith("x"):
+            out.append("fill (refused) " + repr(cfg.refused[int(e[1:])]))
         else:
             out.append(("block " if cfg.kind == "fr" else "fill ") + repr(cfg.pool[e]))
     return out
